@@ -16,10 +16,16 @@ for pid, d in sorted(md.CHECKS.items()):
         "engine": d.get("engine", "hypothesis-sharded"),
         "level_claimed": {"category": "exploration", "text": d["text"], "design_ref": d["design_ref"]},
         "level_note": d["note"],
-        "technique": d["technique"],
+        "technique": d["technique"] + ("" if pid in md.CGF_OFF else
+                                       "; the thorough tier adds a coverage-guided fuzzing campaign (atheris/libFuzzer over the same strategies and oracles, library byte code instrumented)"),
     })
 props = [json.loads(l)["id"] for l in open(os.path.join(HERE, "properties.jsonl"))]
 na = [{"property_id": p, "reason": md.NOT_APPLICABLE.get(p, md.NOT_YET)} for p in props if p not in md.CHECKS]
+for e in md.ENGINES:
+    if e["name"] == "hypothesis-sharded":
+        e["serves_properties"] = sorted(md.CHECKS)
+    elif e["name"] == "atheris-coverage-guided":
+        e["serves_properties"] = [p for p in sorted(md.CHECKS) if p not in md.CGF_OFF]
 m = {
     "version": 1,
     "setup_cmd": md.SETUP,
